@@ -402,6 +402,13 @@ pub struct ReadBehaviour {
     pub integral_floats_as_ints: bool,
     /// deliver field names as owned strings instead of borrowed
     pub owned_keys: bool,
+    /// deliver every integer through the SMALLEST visit_uN / visit_iN that holds it
+    /// (what compact binary self-describing formats do)
+    #[serde(default)]
+    pub narrow_ints: bool,
+    /// deliver floats that are exactly representable as f32 through visit_f32
+    #[serde(default)]
+    pub f32_when_exact: bool,
     pub seed: u64,
 }
 
@@ -413,6 +420,8 @@ impl ReadBehaviour {
             widen_ints: false,
             integral_floats_as_ints: false,
             owned_keys: false,
+            narrow_ints: false,
+            f32_when_exact: false,
             seed: 0,
         }
     }
@@ -427,6 +436,8 @@ impl ReadBehaviour {
             // on a float there is not wrong (the draw keeps the stream aligned)
             integral_floats_as_ints: r.chance(1, 3) && false,
             owned_keys: r.chance(1, 2),
+            narrow_ints: r.chance(1, 4),
+            f32_when_exact: r.chance(1, 4),
             seed: r.next(),
         }
     }
@@ -596,7 +607,17 @@ impl<'de> de::Deserializer<'de> for TreeDe<'de> {
             Tree::Unit => v.visit_unit(),
             Tree::Bool(b) => v.visit_bool(*b),
             Tree::U(x, w) => {
-                if self.b.widen_ints {
+                if self.b.narrow_ints {
+                    if *x <= u8::MAX as u64 {
+                        v.visit_u8(*x as u8)
+                    } else if *x <= u16::MAX as u64 {
+                        v.visit_u16(*x as u16)
+                    } else if *x <= u32::MAX as u64 {
+                        v.visit_u32(*x as u32)
+                    } else {
+                        v.visit_u64(*x)
+                    }
+                } else if self.b.widen_ints {
                     v.visit_u64(*x)
                 } else {
                     match w {
@@ -608,7 +629,19 @@ impl<'de> de::Deserializer<'de> for TreeDe<'de> {
                 }
             }
             Tree::I(x, w) => {
-                if self.b.widen_ints {
+                if self.b.narrow_ints {
+                    if *x >= 0 && *x <= u8::MAX as i64 {
+                        v.visit_u8(*x as u8)
+                    } else if *x >= i8::MIN as i64 && *x <= i8::MAX as i64 {
+                        v.visit_i8(*x as i8)
+                    } else if *x >= i16::MIN as i64 && *x <= i16::MAX as i64 {
+                        v.visit_i16(*x as i16)
+                    } else if *x >= i32::MIN as i64 && *x <= i32::MAX as i64 {
+                        v.visit_i32(*x as i32)
+                    } else {
+                        v.visit_i64(*x)
+                    }
+                } else if self.b.widen_ints {
                     if *x >= 0 && (mix(self.b.seed, self.depth) & 1) == 1 {
                         // formats like JSON deliver non-negative integers as u64
                         v.visit_u64(*x as u64)
@@ -637,7 +670,7 @@ impl<'de> de::Deserializer<'de> for TreeDe<'de> {
                     } else {
                         v.visit_i64(x as i64)
                     }
-                } else if *was32 {
+                } else if *was32 || (self.b.f32_when_exact && (x as f32) as f64 == x && x.is_finite()) {
                     v.visit_f32(x as f32)
                 } else {
                     v.visit_f64(x)
